@@ -728,6 +728,7 @@ def _extreme(a, axis, less):
     ctx.assume(forall([t], z3.Implies(in_range(t, n), (m.t <= old(t)) if less else (m.t >= old(t)))),
                "numpy:min/max bounds")
     ctx.trust("numpy:min/max (bound of all elements, attained)")
+    ctx.ghost["last_extreme_at"] = w
     return m
 
 
